@@ -237,6 +237,8 @@ def bit_and(it, a, b, za, zb_):
             if m == 0:
                 return 0
             if is_pow2(m + 1):
+                if m + 1 <= 2 ** 16 and it.ctx.valid(z3.And(zx >= 0, zx <= m)):
+                    return mk_int(zx)             # the mask covers the whole (small) value
                 return mk_int(zx % (m + 1))
             if is_pow2(m):
                 return mk_int(((zx / m) % 2) * m)
@@ -244,6 +246,8 @@ def bit_and(it, a, b, za, zb_):
             lo = (m & -m).bit_length() - 1
             if is_pow2((m >> lo) + 1):
                 w = (m >> lo).bit_length()
+                if lo + w <= 16 and it.ctx.valid(z3.And(zx >= 0, zx < 2 ** (lo + w))):
+                    return mk_int((zx / (2 ** lo)) * (2 ** lo))     # no bits above the mask
                 return mk_int(((zx / (2 ** lo)) % (2 ** w)) * (2 ** lo))
     # x & 2**k with symbolic k
     for zx, zm in ((za, zb_), (zb_, za)):
@@ -1077,6 +1081,17 @@ def bytes_method(it, recv, name, args, kwargs, node):
         if len(args) != 1 or not isinstance(args[0], bytes) or len(args[0]) != 1:
             raise Unsupported(f"{name} with other than one byte value")
         c = args[0][0]
+        # a literal first (last) chunk that contains another byte value stops the run inside it: structural answer
+        chs = list(norm_bytes(vb).chunks) if isinstance(norm_bytes(vb), VBytes) else None
+        if chs:
+            edge = chs[0] if name == "lstrip" else chs[-1]
+            if edge.lit is not None:
+                kept = edge.lit.lstrip(args[0]) if name == "lstrip" else edge.lit.rstrip(args[0])
+                if kept:
+                    if kept == edge.lit:
+                        return recv
+                    nc = Chunk(sym.seqlit(kept), len(kept), kept)
+                    return norm_bytes(VBytes([nc] + chs[1:] if name == "lstrip" else chs[:-1] + [nc]))
         f = sym.F_lstrip if name == "lstrip" else sym.F_rstrip
         z = f(vb.z, z3.IntVal(c))
         return VBytes([Chunk(z, None)])
